@@ -2,7 +2,7 @@
    Client half: ClientProofsG3*.v.  Server half: see below / ServerProps.v. *)
 From Coq Require Import List Bool Arith NArith.
 Import ListNotations.
-From TarpcV Require Import Base Transport Client ClientS ClientMon ClientSpec ClientProofsG3c.
+From TarpcV Require Import Base Transport Client ClientS ClientMon ClientSpec ClientProofsG3.
 
 (* Client dispatch.  For EVERY transport, configuration and op list (< 2^64 ops) the C09 monitor
    accepts the run:
